@@ -19,6 +19,13 @@ x -> offset + scale * x (offset in {0, 2^10, 2^20}, scale in {2^-10, 1, 2^10}), 
 (equal, sub-grid, other node count, SAME node count with every node moved by 1/4 or 2^-10 of a cell); the time grid is translated
 by {0, 2^10 (, 2^20)} and crossed with all observation times.  "Coinciding" is exact equality of the coordinates at every
 placement; the reference restriction / interpolation is computed in coordinates relative to the grid's first node (_c18_place).
+
+Input container facet (_c18_cont): the same parameter values are handed to ONE PDEModel as a plain vector, a CUQIarray (parameters /
+function values), an ndarray of function values (is_par=False) and a cuqi.samples.Samples collection with 1, 2 and par_dim columns,
+crossed with identity and non-identity domain geometries (KL with all modes / truncated, Step, Mapped, Mapped over KL), identity /
+mapped range geometries and observation grids that make parameter and observation dimension equal or unequal; column i of the answer
+must be range.fun2par(observe(solve(PDE_form(domain.par2fun(column i))))) computed with dense references written here, carry the range
+geometry, and a container may not be refused where the per-vector route answers; gradient likewise with direction / wrt in the container.
 """
 import itertools
 import numpy as np
@@ -26,6 +33,7 @@ from vfw.core import CellResult, close
 from vfw import refs
 from checks import _c18_repr as R
 from checks import _c18_place as P
+from checks import _c18_cont as CT
 
 PROPERTY = "C18"
 RULE = ("cells = {steady: form x solver x grid relation x observation map x model domain geometry x gradient hook; "
@@ -47,6 +55,21 @@ RULE = ("cells = {steady: form x solver x grid relation x observation map x mode
         "coordinates, exact comparison) or an interpolant of the reference solution evaluated in grid-relative coordinates, and "
         "PDEModel.forward the same; a failure the same cell shows on the unit grid as well keeps its ordinary signature, otherwise the "
         "placement (far-from-origin / rescaled) is appended to the signature facet.  "
+        "Input container facet: {plain parameter vector, CUQIarray of parameters, CUQIarray of function values, ndarray of function values "
+        "with is_par=False, Samples with 1 / 2 / par_dim columns (array backed, domain geometry attached), Samples with 2 columns without "
+        "geometry} x domain geometry {integer, Continuous1D, KL all modes, KL truncated, Step, Mapped(exp), Mapped over truncated KL} x range "
+        "geometry {Continuous1D, affine Mapped} x observation grid {equal, subset, offnode} (parameter / observation dimension equal and "
+        "unequal in every geometry class) x PDE {steady: field = source; field in operator and rhs + square map; time dependent: field = "
+        "initial condition (forward Euler); field in operator, source and initial condition + square map (backward Euler)} - the full product; "
+        "in each cell every parameter vector is first evaluated one at a time as a plain vector against the dense reference "
+        "range.fun2par(observe(solve(PDE_form(domain.par2fun(x))))) (KL sine sum, step indicator, maps written in _c18_cont), then the "
+        "container is evaluated on the same live model (a Samples collection three times: in order, reversed, in order): every column must "
+        "equal the reference AND the per-vector answer (1e-12), the answer to Samples is (range_dim, Ns), a CUQIarray / Samples answer carries "
+        "the range geometry, the input array is intact, and a raise for a container whose vectors are all answered one at a time is a "
+        "verdict; gradient(direction, wrt) with both arguments in the container against (range.par2fun(direction) @ J(par2fun(wrt))) @ "
+        "d par2fun/d wrt for a harness-supplied, point-recording jacobian_wrt_parameter (a raise is accepted where the plain-vector call "
+        "raises too, and for Samples arguments).  The same container facet on the shipped Poisson1D / Heat1D models x field {None, Step, KL 3 "
+        "modes, KL all modes} x observation_grid_map {None, subset} with the model's own PDE_form as the assembled system.  "
         "A cell is non-trivial when at least one observation was returned (not refused)")
 BOUND = {
     "quick": "steady: 3 forms (N=6 nodes) x 6 solvers x 6 grid relations x 3 maps (+3 domain geometries x 3 gradient hooks on the "
@@ -59,12 +82,16 @@ BOUND = {
              "{equal, offnode} (time dependent, K=3).  "
              "Location / scale cells: 9 placements x 6 grid relations (minus the 5 unit-grid ones already enumerated) x {steady: 3 forms "
              "(N=6) x maps {none, square}; time dependent: 2 forms (N=5, non-uniform K=3) x 2 methods x time_obs {final, all, on-nodes, "
-             "off-nodes}}; time origin 2^10 x grid {unit, at 2^10} x {equal, subset, shifted} x 2 forms x 2 methods x 6 time_obs",
+             "off-nodes}}; time origin 2^10 x grid {unit, at 2^10} x {equal, subset, shifted} x 2 forms x 2 methods x 6 time_obs.  "
+             "Container cells: 8 containers x 7 domain geometries x 2 range geometries x 3 observation grids x 4 PDEs (N=5, non-uniform K=3), "
+             "Samples with 1, 2 and par_dim (3 or 5) columns; shipped: 7 containers x 4 fields x 2 observation_grid_maps x Poisson1D dim {6,9} / "
+             "Heat1D dim {5,8}",
     "thorough": "as quick with K in 2..6, N in {5,7} for the time-dependent forms, N in {6,9} steady, and all 3 value catalogues in one run; "
                 "representation cells also on the uniform K=3 grid, plus (first catalogue) the complete product 5 x 6 x 6 x 8 of "
                 "(parameter, initial condition, source, operator) representations x 2 methods x {final, all} x {equal, offnode}; "
                 "location / scale cells with N in {6,9} x all 3 maps (steady), N in {5,7} x 3 forms x {non-uniform K=3, uniform K=4} x all 6 "
-                "time_obs (time dependent); time origin in {2^10, 2^20} x 3 forms",
+                "time_obs (time dependent); time origin in {2^10, 2^20} x 3 forms; container cells with N in {5,7} and both stepping methods "
+                "for both time dependent PDEs (6 PDEs)",
 }
 ASSUMPTIONS = [
     "PDE_form callables, linear solvers and observation maps are harness-supplied (they are inputs of the property); the assembled "
@@ -91,6 +118,14 @@ ASSUMPTIONS = [
     "stays at 1e-10 at every placement.  The reference itself is evaluated in coordinates x - x_0 (exact differences of the handed-over "
     "floats), where it is as well conditioned as on the unit grid.  Offsets beyond 2^20, negative / decreasing grids and scaling of "
     "the time axis are not covered",
+    "input containers: Samples collections are array backed and hold PARAMETERS (list-backed collections and collections of function "
+    "values are not covered); a CUQIarray input carries the model's own domain geometry (foreign geometries are not covered); what the "
+    "answer to an ndarray input is wrapped in is not demanded, the answer to a CUQIarray / Samples input must carry the range geometry "
+    "when it carries one; gradient with Samples arguments may be refused (documented), and if answered must be the per-sample gradients; "
+    "the Jacobian hook of the container cells is harness-supplied (the derivative of the pipeline itself is the business of the steady "
+    "cells with gradient hooks); on the shipped models the parameter -> function map is the model's own domain geometry, in the PDEModel "
+    "container cells it is the dense reference of _c18_cont (documented KL sine expansion with decay 2.5 / normaliser 12, step "
+    "indicator of an equidistant grid in integer arithmetic, exp maps)",
     "input integrity is demanded of the library only (harness-supplied solvers and maps do not write to their arguments); the returned "
     "observation may alias the solution",
 ]
@@ -227,12 +262,28 @@ def cells(tier, seed):
                 out.append({"kind": "regrid", "cls": cls, "form": form, "N": 6 if cls == "steady" else 5, "cat": k, "depth": 3 if q else 4})
                 for method in (("forward_euler", "backward_euler") if cls == "timedep" else ("-",)):
                     out.append({"kind": "reuse", "cls": cls, "form": form, "N": 6 if cls == "steady" else 5, "method": method, "cat": k})
+        # input container facet of PDEModel.forward / gradient: the full product
+        for N in ((5,) if q else (5, 7)):
+            for pname in (CT.CONT_PDES if q else CT.CONT_PDES_THOROUGH):
+                for dg in CT.DGEOMS:
+                    for rg in CT.RGEOMS:
+                        for rel in CT.CONT_RELS:
+                            for cont in CT.CONTAINERS:
+                                out.append({"kind": "container", "pde": pname, "N": N, "dgeom": dg, "rgeom": rg, "grids": rel,
+                                            "container": cont, "cat": k})
         for prob, dims in (("Poisson1D", (6, 9)), ("Heat1D", (5, 8))):
             for dim in dims:
                 for field in ("None", "Step", "KL"):
                     for og in ("None", "subset"):
                         for prep in R.REPS:
                             out.append({"kind": "shipped", "problem": prob, "dim": dim, "field": field, "obsmap": og, "prep": prep, "cat": k})
+                # input container facet on the shipped models (field KL-full: all modes, parameter and observation dimension related as
+                # the test problem defines them: equal for Heat1D, dim+1 -> dim for Poisson1D)
+                for field in ("None", "Step", "KL", "KL-full"):
+                    for og in ("None", "subset"):
+                        for cont in CT.SHIPPED_CONTAINERS:
+                            out.append({"kind": "shipped", "problem": prob, "dim": dim, "field": field, "obsmap": og, "prep": "f64",
+                                        "container": cont, "cat": k})
     return out
 
 
@@ -1067,11 +1118,13 @@ def _eval_shipped(cell, res):
         kwargs = {"field_type": "Step", "field_params": {"n_steps": 3}}
     elif cell["field"] == "KL":
         kwargs = {"field_type": "KL", "field_params": {"num_modes": 3}}
+    elif cell["field"] == "KL-full":
+        kwargs = {"field_type": "KL"}
     if cell["obsmap"] == "subset":
         kwargs["observation_grid_map"] = lambda gr: gr[[1, 2, len(gr) - 1]]
     try:
         if cell["problem"] == "Poisson1D":
-            if cell["field"] == "KL":       # KL coefficients have no sign: use the documented map/imap to keep the conductivity positive
+            if cell["field"] in ("KL", "KL-full"):       # KL coefficients have no sign: use the documented map/imap to keep the conductivity positive
                 kwargs.update({"map": lambda x: np.exp(x), "imap": lambda x: np.log(x)})
             tp = cuqi.testproblem.Poisson1D(dim=dim, **kwargs)
         else:
@@ -1083,6 +1136,9 @@ def _eval_shipped(cell, res):
         res.nontrivial = False
         res.transitions += 1
         res.outcomes.add("construct-refused:" + type(e).__name__)
+        return
+    if "container" in cell:
+        _eval_shipped_container(cell, res, model, pde)
         return
     pd = model.domain_dim
     geom = model.domain_geometry
@@ -1141,6 +1197,100 @@ def _eval_shipped(cell, res):
     if nobs == 0:
         res.nontrivial = False
     res.sample = {"reference_output": cands[0] if cands else None}
+
+
+def _eval_shipped_container(cell, res, model, pde):
+    """input container facet on a shipped model: column i of model(container) is the model's own PDE_form driven through
+    assemble-solve-observe for par2fun(column i), the output carries the range geometry, Samples / CUQIarray inputs are answered
+    wherever the plain parameter vector is"""
+    k, container = cell["cat"], cell["container"]
+    cc = CT.container_class(container)
+    pd, geom = model.domain_dim, model.domain_geometry
+    n_out = model.range_dim
+    ncols = CT.n_columns(container, pd)
+    X = CT.columns(pd, ncols, k)
+    if cell["problem"] == "Poisson1D" and cell["field"] not in ("KL", "KL-full"):
+        X = 1.0 + np.abs(X)                              # a positive conductivity
+    gsol, gobs = pde.grid_sol, pde.grid_obs
+    same = len(gsol) == len(gobs) and bool(np.all(gsol == gobs))
+    nodes = None if same else np.asarray(gobs, float)
+    ffac = "field=%s" % ("identity" if cell["field"] == "None" else "expansion")
+    reported = set()
+
+    def fail(sig, msg, **kw):
+        if sig not in reported:
+            reported.add(sig)
+            res.fail(sig, msg, **kw)
+    expected, exact, base = [], True, []
+    for j in range(ncols):
+        try:
+            f = np.asarray(geom.par2fun(X[:, j].copy()), float)
+        except Exception as e:
+            res.refused += 1
+            res.nontrivial = False
+            res.outcomes.add("par2fun-refused:" + type(e).__name__)
+            return
+        if cell["problem"] == "Poisson1D":
+            A, b = pde.PDE_form(f)
+            cands, ex = _steady_obs_refs(np.linalg.solve(_dense(A), np.asarray(b, float)), np.asarray(gsol, float), nodes, None)
+        else:
+            times = np.asarray(pde.time_steps, float)
+            cands, ex = _td_obs_refs(_euler_ref(pde.PDE_form, f, times, "forward_euler"), np.asarray(gsol, float), times, nodes, times[-1:], None)
+            res.transitions += len(times) - 1
+        exact = exact and ex
+        expected.append([np.atleast_1d(np.squeeze(np.asarray(c, float))).ravel() for c in cands])
+    ytol = 1e-9 if exact else 1e-7
+    for j in range(ncols):
+        res.transitions += 1
+        res.state("%s:%s:col%d" % (cell["problem"], cell["field"], j))
+        try:
+            yb = np.asarray(model.forward(X[:, j].copy()), float).ravel()
+        except Exception as e:
+            res.refused += 1
+            res.nontrivial = False
+            res.outcomes.add("forward-refused:" + type(e).__name__)
+            return                                      # the plain route is the business of the ordinary shipped cells
+        res.evaluations += 1
+        if not _matches(yb, expected[j], ytol):
+            fail("C18|%s|forward|obs=%s" % (cell["problem"], cell["obsmap"]) + ("" if j == 0 else ",re-evaluated"),
+                 "shipped model output differs from its own PDE_form driven through assemble-solve-observe", y=yb, ref=expected[j][0])
+            return
+        base.append(yb)
+    nobs = ncols if container == "ndarray" else 0
+    if container != "ndarray":
+        for obj, kw, cols in CT.wrap(container, X, geom, lambda x: np.asarray(geom.par2fun(np.asarray(x, float)), float)):
+            keep = R.snap(CT.raw(obj))
+            res.transitions += len(cols)
+            try:
+                y = model.forward(obj, **kw)
+                a = CT._out_array(y)
+            except Exception as e:
+                res.refused += 1
+                res.outcomes.add("container-raises:%s:%s" % (cc, type(e).__name__))
+                fail("C18|%s|forward-raises|container=%s,%s" % (cell["problem"], cc, ffac), "model(%s) raised %r although the model answers "
+                     "every one of its parameter vectors when given as a plain vector" % (container, e))
+                break
+            if not R.same(CT.raw(obj), keep):
+                fail("C18|%s|input-altered|container=%s" % (cell["problem"], cc), "model(%s) modified the array of its input in place" % container)
+            if not CT._check_output_container(y, container, model.range_geometry, n_out, len(cols),
+                                              lambda sig, msg, **kw2: fail(sig.replace("|PDEModel|", "|%s|" % cell["problem"]), msg, **kw2)):
+                break
+            a = a.reshape(n_out, -1) if cc == "samples" else a.reshape(-1, 1)
+            for pos, j in enumerate(cols):
+                res.evaluations += 1
+                col = a[:, pos]
+                if not _matches(col, expected[j], ytol) or not (col.shape == base[j].shape and close(col, base[j], 1e-12)):
+                    fail("C18|%s|forward-container|container=%s,%s" % (cell["problem"], cc, ffac),
+                         "%s of model(%s) is not the shipped model's assemble-solve-observe pipeline applied to %s"
+                         % ("column %d" % pos if cc == "samples" else "the output", container, "that column" if cc == "samples" else "its values"),
+                         y=col, ref=expected[j][0], per_vector=base[j])
+                    break
+            nobs += 1
+    res.outcomes.add("%s:%s:%s:%s:%s:%s" % (cell["problem"], cell["field"], cell["obsmap"], "exact" if exact else "interp", cc,
+                                            "dims-equal" if pd == n_out else "dims-unequal"))
+    if nobs == 0:
+        res.nontrivial = False
+    res.sample = {"parameters": X, "expected_columns": np.column_stack([e[0] for e in expected])}
 
 
 def _eval_regrid(cell, res):
@@ -1296,6 +1446,8 @@ def eval_cell(cell):
         _eval_regrid(cell, res)
     elif cell["kind"] == "reuse":
         _eval_reuse(cell, res)
+    elif cell["kind"] == "container":
+        CT.eval_container(cell, res)
     else:
         raise ValueError(cell["kind"])
     return res
